@@ -566,7 +566,7 @@ class operators:
     Phi = virtual_operator(_operators.Phi, ["phi"], [], _diff + _std)
     S = virtual_operator(_operators.S, ["k"], [], _std + ["nmax", "kgrid", "prune"])
     D = virtual_operator(_operators.D, ["tau", "D", "k"], [], _std)
-    X = virtual_operator(_operators.X, ["tau", "khi"], ["T1", "T2", "g"], _std)
+    X = virtual_operator(_operators.X, ["tau", "khi"], ["T1", "T2", "g"], _std + ["axis"])
 
     # utilities
     Adc = virtual_operator(
